@@ -141,6 +141,21 @@ def field_uses(linker, fname, pname, depth=0, seen=None):
                     out.append({"text": "not yet left by `%s`" % (gd["text"] or ""), "fields": gd["fields"], "taken": None})
         return out
 
+    def note_guarded_writes(x, guards, sp):
+        """something is written under these guards: for a field that is only ever tested (a flag, an Option matched for
+        its variant) this is its rendering - recorded once per guarded region with the full guard set"""
+        if x[0] in ("seq", "alt", "loop", "star", "star1", "sepby"):
+            writes = any(a[0] in ("lit", "hole", "call", "callv", "buf") and not (a[0] == "lit" and not a[1]) for a in T.atoms(x))
+        else:
+            writes = x[0] in ("lit", "hole", "call", "callv", "buf")
+        if not writes:
+            return
+        flds = set()
+        for g in guards:
+            flds |= set(g["fields"])
+        for fl in flds:
+            uses.append({"field": fl, "guards": list(guards), "fn": fname, "sp": sp, "how": "guarded-write", "text": "write under %s" % " && ".join((g["text"] or "") for g in guards if fl in g["fields"])})
+
     def visit_S(S, guards):
         k = S[0]
         if k == "seq":
@@ -148,11 +163,18 @@ def field_uses(linker, fname, pname, depth=0, seen=None):
                 visit_S(x, guards)
                 guards = after_escape(x, guards, escapes_S)
         elif k == "alt":
+            earlier = []        # negations of the arm guards (`PAT if cond`) of the arms above: a later arm is reached only if they failed
             for g, x in S[1]:
                 gd = gdesc(g)
                 for fl in gd["fields"]:
                     uses.append({"field": fl, "guards": list(guards), "fn": fname, "sp": g.get("sp"), "how": "guard", "text": gd["text"]})
-                visit_S(x, guards + [gd])
+                inner = guards + earlier + [gd]
+                note_guarded_writes(x, inner, g.get("sp"))
+                visit_S(x, inner)
+                if isinstance(g.get("arm_guard"), dict):
+                    flds = sorted(param_fields(g["arm_guard"], pname))
+                    if flds:
+                        earlier = earlier + [{"text": "not taken: `%s`" % (gd["text"] or ""), "fields": flds, "taken": None}]
         elif k in ("loop", "star", "star1"):
             info = S[2] if len(S) > 2 and isinstance(S[2], dict) else {}
             over = info.get("e")
@@ -196,6 +218,17 @@ def field_uses(linker, fname, pname, depth=0, seen=None):
                     uses.append({"field": fl, "guards": list(guards), "fn": fname, "sp": S[3], "how": "call-arg", "text": "%s(%s)" % (S[1].rsplit("::", 1)[-1], T.text(a)),
                                  "callee": target, "arg_index": i})
 
+    def has_w(E):
+        if E[0] == "w":
+            return any(a[0] in ("lit", "hole", "call", "callv", "buf") and not (a[0] == "lit" and not a[1]) for a in T.atoms(E[2])) or E[2][0] in ("call", "callv", "hole")
+        if E[0] == "seq":
+            return any(has_w(x) for x in E[1])
+        if E[0] == "alt":
+            return any(has_w(x) for _, x in E[1])
+        if E[0] == "loop":
+            return has_w(E[1])
+        return False
+
     def visit_E(E, guards):
         k = E[0]
         if k == "w":
@@ -205,11 +238,24 @@ def field_uses(linker, fname, pname, depth=0, seen=None):
                 visit_E(x, guards)
                 guards = after_escape(x, guards, escapes_E)
         elif k == "alt":
+            earlier = []
             for g, x in E[1]:
                 gd = gdesc(g)
                 for fl in gd["fields"]:
                     uses.append({"field": fl, "guards": list(guards), "fn": fname, "sp": g.get("sp"), "how": "guard", "text": gd["text"]})
-                visit_E(x, guards + [gd])
+                inner = guards + earlier + [gd]
+                if has_w(x):
+                    flds = set()
+                    for g_ in inner:
+                        flds |= set(g_["fields"])
+                    for fl in flds:
+                        uses.append({"field": fl, "guards": list(inner), "fn": fname, "sp": g.get("sp"), "how": "guarded-write",
+                                     "text": "write under %s" % " && ".join((g_["text"] or "") for g_ in inner if fl in g_["fields"])})
+                visit_E(x, inner)
+                if isinstance(g.get("arm_guard"), dict):
+                    flds = sorted(param_fields(g["arm_guard"], pname))
+                    if flds:
+                        earlier = earlier + [{"text": "not taken: `%s`" % (gd["text"] or ""), "fields": flds, "taken": None}]
         elif k == "loop":
             info = E[2] or {}
             over = info.get("e")
